@@ -370,8 +370,10 @@ func main() {
 	runCalls(r, kit.SSSE, false, n/3, 8, 100) // no handler registered
 	runCalls(r, kit.SJSON, true, n/3, 8, 100) // JSON answers
 	runCalls(r, kit.SLJSON, true, n/4, 8, 100)
+	regHistories(r, kit.SSSE, r.Pick(40, 400), 24)
+	regHistories(r, kit.SLSSE, r.Pick(20, 200), 24)
 	eventIDs(r, kit.SSSE, r.Pick(150, 1500))
 	eventIDs(r, kit.SLSSE, r.Pick(80, 800))
-	r.Finish("a tool emits a seeded script of 0-200 progress / log / custom notifications (bursts without sleeps, sizes 0-256 KiB, _meta absent / empty / present) tagged (call nonce, seq); library client handlers append (logical clock, nonce, seq, params, _meta), the call's return is stamped with the same clock; per call: exact sequence equality, every handler stamp < return stamp, params and _meta equal, result intact; 1 / 8 / 16 concurrent calls on one client; stateful and stateless SSE answers; JSON answers and no-handler runs must drop the notifications and leave the result intact; a raw peer records every id: line per POST stream (pairwise distinct). Distinct = (mode, script shape) that conformed.",
+	r.Finish("a tool emits a seeded script of 0-200 progress / log / custom notifications (bursts without sleeps, sizes 0-256 KiB, _meta absent / empty / present) tagged (call nonce, seq); library client handlers append (logical clock, nonce, seq, params, _meta), the call's return is stamped with the same clock; per call: exact sequence equality, every handler stamp < return stamp, params and _meta equal, result intact; 1 / 8 / 16 concurrent calls on one client; stateful and stateless SSE answers; JSON answers and no-handler runs must drop the notifications and leave the result intact; a raw peer records every id: line per POST stream (pairwise distinct); registration histories: one client walks a seeded history of register / replace / unregister / register-again on the three methods between calls, every handler value carries a generation, and each call's notifications must have reached exactly the generation registered at that moment (none when unregistered). Distinct = (mode, script shape) that conformed.",
 		[]string{"handler timing is judged by a logical clock, not wall time"})
 }
